@@ -27,11 +27,15 @@ inductive Atom
   | selfTA | otherTA
   /-- `p == 0`, `p == 1` (the exponent of `__pow__`, already rationalised) -/
   | pEq0 | pEq1
+  /-- `__eq__`: `isinstance(u, Unit)`, `math.isclose` of the two scales / offsets, `self.dimensions is u.dimensions`,
+      `self.dimensions == u.dimensions` -/
+  | otherIsUnit | scaleClose | offsetClose | dimIs | dimEq
   /-- a condition the translator does not know, as source text -/
   | opaque (src : String)
 deriving DecidableEq, Repr
 
 inductive Cond
+  | const (b : Bool)
   | atom (a : Atom)
   | not (c : Cond)
   | and (a b : Cond)
@@ -67,6 +71,8 @@ inductive Outcome
   | raise (e : Err)
   /-- `return Unit(expr, base_value=…, base_offset=…, dimensions=…, registry=…)` -/
   | unit (expr scale dim : FieldE) (off : OffE) (reg : RegE)
+  /-- `return <boolean expression>` (`__eq__`) -/
+  | bool (c : Cond)
   /-- any other `return` (source text), or falling off the end of the body -/
   | other (src : String)
 deriving DecidableEq, Repr
@@ -93,9 +99,14 @@ def Atom.eval (ω : String → Bool) (u v : UnitV K) (p : Rat) : Atom → Bool
   | .otherTA => v.isTempOrAngle
   | .pEq0 => p == 0
   | .pEq1 => p == 1
+  | .otherIsUnit => true
+  | .scaleClose | .offsetClose => false   -- read by `Atom.evalB` (needs the closeness relation)
+  | .dimIs => u.canon && v.canon && u.dim == v.dim
+  | .dimEq => u.dim == v.dim
   | .opaque s => ω s
 
 def Cond.eval (ω : String → Bool) (u v : UnitV K) (p : Rat) : Cond → Bool
+  | .const b => b
   | .atom a => a.eval ω u v p
   | .not c => !(c.eval ω u v p)
   | .and a b => a.eval ω u v p && b.eval ω u v p
@@ -137,6 +148,7 @@ def dimField (u v : UnitV K) (p : Rat) : FieldE → Option Dim
 def Outcome.eval (ω : String → Bool) (u v : UnitV K) (p : Rat) : Outcome → Except Err (UnitV K)
   | .raise e => .error e
   | .other _ => .error .Other
+  | .bool _ => .error .Other
   | .unit e s d o _ =>
     match exprField u v p e, scaleField u v p s, dimField u v p d, o.eval ω u v p with
     | some e, some s, some d, some o => .ok ⟨e, s, o, d, true⟩
@@ -147,6 +159,36 @@ def Outcome.eval (ω : String → Bool) (u v : UnitV K) (p : Rat) : Outcome → 
 def evalPaths (ω : String → Bool) (u v : UnitV K) (p : Rat) : List Path → Except Err (UnitV K)
   | [] => .error .Other
   | pa :: rest => if guardHolds ω u v p pa.guard then pa.out.eval ω u v p else evalPaths ω u v p rest
+
+/-! #### boolean-valued bodies (`__eq__`), relative to a closeness relation on scales/offsets
+   (`math.isclose` at `Float`, equality at an exact carrier) -/
+
+def Atom.evalB (close : K → K → Bool) (ω : String → Bool) (u v : UnitV K) : Atom → Bool
+  | .scaleClose => close u.scale v.scale
+  | .offsetClose => close u.offset v.offset
+  | a => a.eval ω u v 0
+
+def Cond.evalB (close : K → K → Bool) (ω : String → Bool) (u v : UnitV K) : Cond → Bool
+  | .const b => b
+  | .atom a => a.evalB close ω u v
+  | .not c => !(c.evalB close ω u v)
+  | .and a b => a.evalB close ω u v && b.evalB close ω u v
+  | .or a b => a.evalB close ω u v || b.evalB close ω u v
+
+def guardHoldsB (close : K → K → Bool) (ω : String → Bool) (u v : UnitV K) : List (Cond × Bool) → Bool
+  | [] => true
+  | (c, b) :: rest => (c.evalB close ω u v == b) && guardHoldsB close ω u v rest
+
+/-- a boolean method body: the value of the first path whose conditions hold (`none`: no path, or it does
+    not end in a boolean return) -/
+def evalBoolPaths (close : K → K → Bool) (ω : String → Bool) (u v : UnitV K) : List Path → Option Bool
+  | [] => none
+  | pa :: rest =>
+    if guardHoldsB close ω u v pa.guard then
+      match pa.out with
+      | .bool c => some (c.evalB close ω u v)
+      | _ => none
+    else evalBoolPaths close ω u v rest
 
 end eval
 
